@@ -75,6 +75,7 @@ static uint8_t table_state() {
 static void yield_fn(int site) {
   if (tl_tid < 0 || tl_quiet) return;
   uint32_t aux = (site <= T_ALLOC_PROBE || site == A_ATOMIC8) ? table_state() : 0;
+  if (site == A_ATOMIC32) aux = 0;
   sch_yield(tl_tid, site, aux);
 }
 static uint64_t spin_fn(int) {
@@ -162,6 +163,10 @@ static const char* const kIdnHosts[] = {"m\xc3\xbcnchen.de", "\xc3\xa9.com", "xn
                                         "fa\xc3\x9f.de", "\xd8\xa8.example", "a\xe2\x80\x8d""b.com"};
 static Op gen_table_op(Rng& r) {  // an operation whose first action needs the Unicode tables
   std::string host = pick(r, kIdnHosts);
+  // hosts that mix labels to be mapped with labels that are already Punycode reach the xn-- re-validation; corpus /
+  // generated IDNA inputs reach the rest of the pipeline (normalisation, bidi, joiners)
+  if (r.chance(1, 4)) host = gen_mixed_idn_host(r);
+  else if (r.chance(1, 5)) host = sanitize_utf8(gen_idna_input(r).substr(0, 60));
   switch (r.below(8)) {
     case 0: case 1: return make_parse("https://" + host + "/p?q#f", std::nullopt);
     case 2: return make_idna(I_TO_ASCII, host);
@@ -400,6 +405,7 @@ static Result execute(const Plan& p, Stats& st) {
       fflush(stdout);
       _exit(3);
     }
+    sch_release_threads();
     for (auto& x : th) x.join();
     if (status == SCH_OVER_BUDGET) {
       res.violation = true;
@@ -421,10 +427,14 @@ static Result execute(const Plan& p, Stats& st) {
     uint32_t w[3] = {ev[i].tid, ev[i].site, ev[i].aux};
     h = fnv1a(std::string_view(reinterpret_cast<const char*>(w), sizeof w), h);
     int s = ev[i].site;
-    if (s <= T_ALLOC_PROBE || s == A_ATOMIC8 || s == LIM_GET || s == LIM_SET) {
+    if (s <= T_ALLOC_PROBE || s == A_ATOMIC8 || s == A_ATOMIC32 || s == X_BLOCKED || s == LIM_GET || s == LIM_SET) {
       uint32_t v[2] = {ev[i].tid, ev[i].site};
       shared_sig = fnv1a(std::string_view(reinterpret_cast<const char*>(v), sizeof v), shared_sig);
     }
+  }
+  if (getenv("VERIF_DUMP_EVENTS")) {  // debugging aid for replays: the full event trace on stderr
+    for (uint32_t i = 0; i < nev; i++)
+      fprintf(stderr, "EV %u t%u %s aux=%u\n", ev[i].seq, ev[i].tid, site_name(ev[i].site), ev[i].aux);
   }
   for (int t = 0; t < n; t++)
     for (auto& s : recs[t].steps) h = fnv1a(s.obs.text, h);
